@@ -26,7 +26,7 @@ def run(ck):
     np.seterr(all="ignore")
     rng = ck.rng
     thorough = ck.tier == "thorough"
-    N = 60 if thorough else 12
+    N = ck.n(12, 60)
     worst = {}
     lines, plan = [], []
 
